@@ -322,6 +322,11 @@ func c16Check(c c16Case, env *c16Env, e *vsched.Exec, obs *c16Obs) (out []ev.Vio
 	}
 	// sequential probes after the run (the scheduler is off): "newer than frame N" requests
 	if c.Reconnect != "truncated" && processor != nil {
+		defer func() {
+			if p := recover(); p != nil {
+				add("C16:panic:snapshot-request-after-the-run", crashMsg(p))
+			}
+		}()
 		n := int(processor.CurrentFrame)
 		if f, derr := (&service{}).TakeSnapshot(n); derr == nil || f != nil {
 			add("C16:snapshot-filter", fmt.Sprintf("TakeSnapshot(lastFrame=%d) with %d frames processed returned (%v, %v), expected the 'no new frames yet' error", n, n, f != nil, derr))
